@@ -161,7 +161,8 @@ def _gen_cli(rng, cfg, files, wsdocs, nout):
         op["specroot"] = rng.choice([None, "config", "xmls"])
         op["dataroot"] = rng.choice([None, "data", "hists"])
         op["resultprefix"] = rng.choice([None, "FitConfig", "pfx"])
-        op["patches"] = []
+        # --patch may be repeated: the patches apply one after the other to the document read
+        op["patches"] = rng.sample(patchfiles, min(len(patchfiles), rng.choice([0, 1, 2, 2]))) if patchfiles and wsf in cfg["orig_ws"] else []
         op["out"] = None
         op["both_outputs"] = False
     elif cmd == "xml2json":
@@ -426,6 +427,8 @@ class World:
             a = ["patchset", "inspect", inp(op["patchset"], via)]
         elif cmd == "json2xml":
             a = [cmd, inp(op["ws"], via), "--output-dir", op["outdir"]]
+            for p in op.get("patches", []):
+                a += ["-p", p]
             for flag, key in (("--specroot", "specroot"), ("--dataroot", "dataroot"), ("--resultprefix", "resultprefix")):
                 if op.get(key):
                     a += [flag, op[key]]
@@ -523,6 +526,13 @@ class World:
             from pathlib import Path
 
             spec = self._load(op["ws"])
+            for p in op.get("patches", []):
+                from sim.ref import jsonpatch_ref as jpr
+
+                try:
+                    spec = jpr.apply_patch(spec, self._load(p))    # independent RFC-6902 applier, one patch after the other
+                except jpr.PatchError as e:
+                    raise ValueError(f"patch does not apply: {e}")
             ref = Path(self._p(f"ref_{op['outdir']}"))
             sr, dr, pf = op.get("specroot") or "config", op.get("dataroot") or "data", op.get("resultprefix") or "FitConfig"
             os.makedirs(ref / sr, exist_ok=True)
